@@ -91,7 +91,7 @@ Section SeqProofs.
     groups_ok s chunks ->
     groups_ok (lf_step c s o) (chunks ++ match o with SAppend _ _ _ _ => [handed o] | _ => [] end).
   Proof.
-    intros H. destruct o as [d env now now2| |now]; cbn [lf_step handed].
+    intros H. destruct o as [d env now now2| |now|]; cbn [lf_step handed].
     - unfold lf_append. destruct (af_loop env d) as [[acc w] er]. cbn [fst snd].
       pose proof (groups_put s chunks acc w H) as H1.
       destruct (rollSize c <? wb (put acc w s)); [apply groups_roll; exact H1|].
@@ -103,6 +103,7 @@ Section SeqProofs.
       + eapply groups_same_files; [|exact H1]. reflexivity.
     - rewrite app_nil_r. eapply groups_same_files; [|exact H]. reflexivity.
     - rewrite app_nil_r. apply groups_roll. exact H.
+    - rewrite app_nil_r. eapply groups_same_files; [|exact H]. reflexivity.
   Qed.
 
   Definition chunk_of o : list (list A) :=
@@ -169,7 +170,7 @@ Section SeqProofs.
   Proof.
     induction ops as [|o ops IH]; cbn [forallb flat_map]; [reflexivity|].
     intros H. apply andb_true_iff in H. destruct H as [Ho Hr]. rewrite (IH Hr). f_equal.
-    destruct o as [d env now now2| |now]; cbn [chunk_of op_record handed]; try reflexivity.
+    destruct o as [d env now now2| |now|]; cbn [chunk_of op_record handed]; try reflexivity.
     cbn [op_error] in Ho. destruct (af_loop env d) as [[acc w] er] eqn:E. cbn [snd fst] in *.
     destruct er; [discriminate|]. apply af_loop_no_error in E. destruct E as [E _]. subst. reflexivity.
   Qed.
@@ -241,7 +242,7 @@ Section SeqProofs.
 
   Lemma lf_inv_step c s o : lf_inv c s -> lf_inv c (lf_step c s o).
   Proof.
-    intros H. destruct o as [d env now now2| |now]; cbn [lf_step].
+    intros H. destruct o as [d env now now2| |now|]; cbn [lf_step].
     - unfold lf_append. pose proof (af_loop_written env d) as Hw.
       destruct (af_loop env d) as [[acc w] er]. destruct Hw as [Hw _]. cbn [fst].
       pose proof (lf_inv_put c acc w s Hw H) as H1. pose proof H1 as [_ [Hc _]].
@@ -255,6 +256,7 @@ Section SeqProofs.
       + eapply lf_inv_same; [| | | | |exact H1]; try reflexivity. cbn [set_cnt cnt]. lia.
     - eapply lf_inv_same; [| | | | |exact H]; try reflexivity. destruct H as [_ [Hc _]]. exact Hc.
     - apply lf_inv_roll. exact H.
+    - eapply lf_inv_same; [| | | | |exact H]; try reflexivity. destruct H as [_ [Hc _]]. exact Hc.
   Qed.
 
   Lemma lf_inv_new c now : 0 < now -> lf_inv c (lf_new now).
@@ -278,7 +280,7 @@ Section SeqProofs.
 
   Lemma lf_exact_step c s o : op_error o = false -> lf_exact s -> lf_exact (lf_step c s o).
   Proof.
-    intros Hok H. destruct o as [d env now now2| |now]; cbn [lf_step].
+    intros Hok H. destruct o as [d env now now2| |now|]; cbn [lf_step].
     - cbn [op_error] in Hok. unfold lf_append. destruct (af_loop env d) as [[acc w] er] eqn:E. cbn [snd fst] in *. subst er.
       apply af_loop_no_error in E. destruct E as [-> ->].
       assert (H1 : lf_exact (put d (length d) s)).
@@ -291,6 +293,7 @@ Section SeqProofs.
       + exact H1.
     - exact H.
     - apply lf_exact_roll. exact H.
+    - exact H.
   Qed.
 
   Lemma lf_exact_run c ops : forall s,
@@ -388,6 +391,69 @@ Section SeqProofs.
     destruct (Z.ltb_spec (lastRoll s) now2) as [_|Hc2]; [|lia]. cbn [fst files sop lastRoll lastFlush cnt wb set_cnt]. repeat split; reflexivity.
   Qed.
 
+  (* ---- ~LogFile / ~AppendFile: fclose hands everything to the kernel ---- *)
+  Definition lf_dirty s : Prop :=
+    match files s with
+    | (nm, d) :: _ => 0 <= dirty s <= Z.of_nat (length d)
+    | [] => dirty s = 0
+    end.
+
+  Lemma lf_dirty_roll now s : lf_dirty s -> lf_dirty (fst (roll now s)).
+  Proof.
+    intros H. unfold roll. destruct (roll_test (lastRoll s) now); cbn [fst]; [|exact H].
+    unfold lf_dirty. cbn [files dirty length]. lia.
+  Qed.
+
+  Lemma lf_dirty_same s s' : files s' = files s -> dirty s' = dirty s -> lf_dirty s -> lf_dirty s'.
+  Proof. intros E1 E2 H. unfold lf_dirty. rewrite E1, E2. exact H. Qed.
+
+  Lemma lf_dirty_zero s s' : files s' = files s -> dirty s' = 0 -> lf_dirty s'.
+  Proof. intros E1 E2. unfold lf_dirty. rewrite E1, E2. destruct (files s) as [|[nm d] r]; lia. Qed.
+
+  Lemma lf_dirty_step c s o : lf_dirty s -> lf_dirty (lf_step c s o).
+  Proof.
+    intros H. destruct o as [d env now now2| |now|]; cbn [lf_step].
+    - unfold lf_append. destruct (af_loop env d) as [[acc w] er]. cbn [fst].
+      assert (H1 : lf_dirty (put acc w s)).
+      { unfold lf_dirty, put in *. destruct (files s) as [|[nm d0] r] eqn:Ef; [rewrite Ef; exact H|].
+        cbn [files dirty]. rewrite app_length. lia. }
+      destruct (rollSize c <? wb (put acc w s)); [apply lf_dirty_roll; exact H1|].
+      destruct (checkEveryN c <=? cnt (put acc w s) + 1).
+      + destruct (period now =? sop (set_cnt 0 (put acc w s))).
+        * destruct (flushInterval c <? now - lastFlush (set_cnt 0 (put acc w s)));
+            [eapply lf_dirty_zero; reflexivity|exact H1].
+        * apply lf_dirty_roll. exact H1.
+      + exact H1.
+    - eapply lf_dirty_zero; reflexivity.
+    - apply lf_dirty_roll. exact H.
+    - eapply lf_dirty_zero; reflexivity.
+  Qed.
+
+  Lemma lf_dirty_run c ops : forall s, lf_dirty s -> lf_dirty (lf_run c s ops).
+  Proof.
+    induction ops as [|o ops IH]; intros s H; cbn [lf_run fold_left]; [exact H|]. apply IH. apply lf_dirty_step. exact H.
+  Qed.
+
+  Lemma lf_run_snoc c s ops o : lf_run c s (ops ++ [o]) = lf_step c (lf_run c s ops) o.
+  Proof. unfold lf_run. rewrite fold_left_app. reflexivity. Qed.
+
+  (* whatever happened before: the bytes stdio may still hold belong to the current file only and are at most
+     its size; flush(), a roll (the old file is closed) and the destructor leave none; the destructor changes
+     nothing else (no file content, no counter) *)
+  Theorem logfile_destructor c now ops :
+    let s := lf_run c (lf_new now) ops in
+    lf_dirty s /\
+    dirty (lf_step c s SClose) = 0 /\ files (lf_step c s SClose) = files s /\ nflush (lf_step c s SClose) = nflush s /\
+    dirty (lf_step c s SFlush) = 0 /\ files (lf_step c s SFlush) = files s /\
+    (forall t, snd (roll t s) = true -> dirty (fst (roll t s)) = 0) /\
+    lf_run c (lf_new now) (ops ++ [SClose]) = lf_step c s SClose.
+  Proof.
+    intros s. split.
+    - apply lf_dirty_run. unfold lf_new. apply lf_dirty_roll. unfold lf_dirty. reflexivity.
+    - repeat split; try reflexivity; [|apply lf_run_snoc].
+      intros t. unfold roll. destruct (roll_test (lastRoll s) t); cbn [fst snd]; [reflexivity|discriminate].
+  Qed.
+
   (* ---- at most one new file per second: names strictly increase with creation ---- *)
   Hypothesis Hguard : LogFile_roll_guard_is_gt = true.
 
@@ -414,7 +480,7 @@ Section SeqProofs.
 
   Lemma names_step c s o : names_ok s -> names_ok (lf_step c s o).
   Proof.
-    intros H. destruct o as [d env now now2| |now]; cbn [lf_step].
+    intros H. destruct o as [d env now now2| |now|]; cbn [lf_step].
     - unfold lf_append. destruct (af_loop env d) as [[acc w] er]. cbn [fst].
       pose proof (names_put s acc w H) as H1.
       destruct (rollSize c <? wb (put acc w s)); [apply names_roll; exact H1|].
@@ -426,6 +492,7 @@ Section SeqProofs.
       + eapply names_same; [| |exact H1]; reflexivity.
     - eapply names_same; [| |exact H]; reflexivity.
     - apply names_roll. exact H.
+    - eapply names_same; [| |exact H]; reflexivity.
   Qed.
 
   Lemma names_run c ops : forall s, names_ok s -> names_ok (lf_run c s ops).
@@ -1370,6 +1437,192 @@ Section Termination.
   Qed.
 End Termination.
 
+(* ====================================================================== ~AsyncLogging, liveness *)
+Section DtorLive.
+  Variables (R : Type) (rlen : R -> Z) (P : params).
+  Hypothesis HP : params_ok P = true.
+  Hypothesis Hagree : sites_agree P = true.
+  Notation stepP := (step R rlen P).
+  Notation runP := (run R rlen P).
+  Notation reachP := (reach R rlen P).
+
+  Ltac prj := cbn [sh be gh progs cur nxt bufs running pc nb1 nb2 twn fault hist owner mark swapmark batches
+                   fbatch dropped out joined emit set_pc set_be recs blen] in *.
+
+  Lemma reach_run ls : forall s0 (s s' : ast R), reachP s0 s -> runP s ls = Some s' -> reachP s0 s'.
+  Proof.
+    induction ls as [|l ls IH]; intros s0 s s' Hr Hrun; cbn [run] in Hrun.
+    - inversion Hrun; subst. exact Hr.
+    - destruct (stepP s l) as [s1|] eqn:E; [|discriminate]. eapply IH; [|exact Hrun]. eapply reach_step; eauto.
+  Qed.
+
+  (* the history only grows and the mark of stop() stays *)
+  Lemma step_hist_mark (s : ast R) l s' : stepP s l = Some s' ->
+    (exists ext, hist (gh s') = hist (gh s) ++ ext) /\ (forall m, mark (gh s) = Some m -> mark (gh s') = Some m).
+  Proof.
+    intros H. destruct l as [t| | |].
+    - cbn [step] in H. destruct (nth_error (progs s) t) as [[|r rest]|]; try discriminate.
+      inversion H; subst s'. prj. split; [eexists; reflexivity|auto].
+    - destruct (back_frame R rlen P s s' H) as [E1 E2]. rewrite E1, E2. split; [exists []; rewrite app_nil_r; reflexivity|auto].
+    - cbn [step] in H. destruct (mark (gh s)) eqn:Em; inversion H; subst s'. prj.
+      split; [exists []; rewrite app_nil_r; reflexivity|intros m Hm; discriminate].
+    - cbn [step] in H. destruct (mark (gh s)); try discriminate. destruct (pc (be s)); try discriminate.
+      destruct (joined (gh s)); inversion H; subst s'. prj. split; [exists []; rewrite app_nil_r; reflexivity|auto].
+  Qed.
+
+  Lemma run_hist_mark ls : forall (s s' : ast R), runP s ls = Some s' ->
+    (exists ext, hist (gh s') = hist (gh s) ++ ext) /\ (forall m, mark (gh s) = Some m -> mark (gh s') = Some m).
+  Proof.
+    induction ls as [|l ls IH]; intros s s' Hrun; cbn [run] in Hrun.
+    - inversion Hrun; subst. split; [exists []; rewrite app_nil_r; reflexivity|auto].
+    - destruct (stepP s l) as [s1|] eqn:E; [|discriminate].
+      destruct (step_hist_mark s l s1 E) as [[e1 H1] M1]. destruct (IH s1 s' Hrun) as [[e2 H2] M2].
+      split; [exists (e1 ++ e2); rewrite H2, H1, app_assoc; reflexivity|auto].
+  Qed.
+
+  (* ~AsyncLogging while the logger is running: when the destructor has returned (the join inside its stop()
+     has returned), every record appended before the destructor was entered has been taken by the back-end,
+     all batches were rendered, the final batch written, the last event is a flush.  If stop() had been
+     called before, the destructor does nothing *)
+  Theorem destructor_flushes progs0 (s : ast R) ls s2 :
+    p_drain P = true ->
+    Forall (Forall (fun r => rlen r < p_cap P)) progs0 -> reachP (init progs0) s ->
+    (mark (gh s) <> None -> dtor_entry R rlen P s = s) /\
+    (mark (gh s) = None -> runP (dtor_entry R rlen P s) ls = Some s2 -> joined (gh s2) = true ->
+       exists rest,
+         taken (gh s2) = hist (gh s) ++ rest /\ pc (be s2) = PDone /\
+         out (gh s2) = final_out R P (gh s2) /\
+         dropped (gh s2) = flat_map (dropped_of R P) (batches (gh s2))).
+  Proof.
+    intros Hd Hs Hr. unfold dtor_entry. cbn [step]. split.
+    - intros Hm. destruct (mark (gh s)); [reflexivity|congruence].
+    - intros Hm Hrun Hj. rewrite Hm in Hrun.
+      set (s1 := mkA (mkSh (cur (sh s)) (nxt (sh s)) (bufs (sh s)) false) (be s)
+                     (mkGh (hist (gh s)) (owner (gh s)) (Some (length (hist (gh s)))) (swapmark (gh s)) (batches (gh s))
+                           (fbatch (gh s)) (dropped (gh s)) (out (gh s)) (joined (gh s))) (progs s)) in *.
+      assert (Hs1 : stepP s LStop = Some s1) by (cbn [step]; rewrite Hm; reflexivity).
+      assert (Hr2 : reachP (init progs0) s2).
+      { eapply reach_run; [|exact Hrun]. eapply reach_step; eauto. }
+      destruct (run_hist_mark ls s1 s2 Hrun) as [[ext He] Hmk]. subst s1. prj.
+      specialize (Hmk _ eq_refl).
+      destruct (stop_flushes R rlen P HP Hagree progs0 s2 Hd Hs Hr2 Hj) as [m [rest [Em [_ [Et [Hp [Ho Hdr]]]]]]].
+      rewrite Hmk in Em. inversion Em; subst m.
+      exists rest. repeat split; auto.
+      rewrite Et, He, firstn_app, Nat.sub_diag, firstn_all. cbn [firstn]. rewrite app_nil_r. reflexivity.
+  Qed.
+
+  (* ---- liveness ---- *)
+  Definition weight (s : ast R) : nat := (stop_rank s + 2 * remaining R s)%nat.
+
+  Lemma remaining_upd (ps : list (list R)) t r rest :
+    nth_error ps t = Some (r :: rest) ->
+    (fold_right (fun p a => length p + a) 0 (upd_nth t rest ps) + 1 = fold_right (fun p a => length p + a) 0 ps)%nat.
+  Proof.
+    revert t; induction ps as [|p ps IH]; intros [|t] H; cbn [nth_error] in H; try discriminate.
+    - inversion H; subst. cbn [upd_nth fold_right length]. lia.
+    - cbn [upd_nth fold_right]. specialize (IH _ H). lia.
+  Qed.
+
+  Lemma weight_step (s : ast R) l : running (sh s) = false ->
+    running (sh (step_or_stay R rlen P s l)) = false /\
+    (weight (step_or_stay R rlen P s l) <= weight s)%nat /\
+    (l = LBack -> pc (be s) <> PDone -> (weight (step_or_stay R rlen P s l) < weight s)%nat).
+  Proof.
+    intros Hr. unfold step_or_stay. destruct (stepP s l) as [s'|] eqn:E.
+    - destruct (rank_step R rlen P s l s' Hr E) as [Hr' Hk]. split; [exact Hr'|]. unfold weight, remaining.
+      destruct l as [t| | |].
+      + cbn [step] in E. destruct (nth_error (progs s) t) as [[|r rest]|] eqn:En; try discriminate.
+        inversion E; subst s'. prj. pose proof (remaining_upd _ _ _ _ En). split; [lia|discriminate].
+      + assert (Ep : progs s' = progs s).
+        { cbn [step] in E. unfold be_step in E.
+          destruct (pc (be s)) as [| | |batch|batch|[|b rest] [|]| |]; inversion E; subst s'; clear E;
+            try (destruct (bufs (sh s))); unfold loop_head, do_swap, do_final_swap;
+            try match goal with |- context [if running ?x then _ else _] => destruct (running x); [|destruct (p_drain P)] end;
+            prj; reflexivity. }
+        rewrite Ep. split; [lia|intros _ _; lia].
+      + cbn [step] in E. destruct (mark (gh s)); inversion E; subst s'. prj. split; [lia|discriminate].
+      + cbn [step] in E. destruct (mark (gh s)); try discriminate. destruct (pc (be s)); try discriminate.
+        destruct (joined (gh s)); inversion E; subst s'. prj. split; [lia|discriminate].
+    - split; [exact Hr|]. split; [lia|]. intros -> Hp. destruct (be_enabled R rlen P s Hp) as [s' E']. congruence.
+  Qed.
+
+  Lemma exec_snoc (s : ast R) ls l : exec R rlen P s (ls ++ [l]) = step_or_stay R rlen P (exec R rlen P s ls) l.
+  Proof. unfold exec. rewrite fold_left_app. reflexivity. Qed.
+
+  Lemma prefix_succ (f : nat -> label) n : sched_prefix f (S n) = sched_prefix f n ++ [f n].
+  Proof. unfold sched_prefix. rewrite seq_S, map_app. reflexivity. Qed.
+
+  Lemma exec_mono (f : nat -> label) (s : ast R) : running (sh s) = false ->
+    forall n, running (sh (exec R rlen P s (sched_prefix f n))) = false /\
+              forall k, (k <= n)%nat ->
+                (weight (exec R rlen P s (sched_prefix f n)) <= weight (exec R rlen P s (sched_prefix f k)))%nat.
+  Proof.
+    intros Hr. induction n as [|n [IH1 IH2]].
+    - split; [exact Hr|]. intros k Hk. assert (k = 0%nat) by lia. subst. lia.
+    - rewrite prefix_succ, exec_snoc.
+      destruct (weight_step (exec R rlen P s (sched_prefix f n)) (f n) IH1) as [W1 [W2 _]].
+      split; [exact W1|]. intros k Hk. destruct (Nat.eq_dec k (S n)) as [->|Hne].
+      + rewrite prefix_succ, exec_snoc. lia.
+      + specialize (IH2 k ltac:(lia)). lia.
+  Qed.
+
+  Lemma exec_reach (s0 s : ast R) ls : reachP s0 s -> reachP s0 (exec R rlen P s ls).
+  Proof.
+    revert s; induction ls as [|l ls IH]; intros s Hr; [exact Hr|]. unfold exec. cbn [fold_left]. apply IH.
+    unfold step_or_stay. destruct (stepP s l) as [s'|] eqn:E; [eapply reach_step; eauto|exact Hr].
+  Qed.
+
+  Lemma rank_zero_done (s : ast R) : stop_rank s = 0%nat -> pc (be s) = PDone.
+  Proof. unfold stop_rank. destruct (pc (be s)) as [| | |batch|batch|todo [|]| |]; intros H; try lia. reflexivity. Qed.
+
+  (* under every schedule that is fair to the back-end, whatever the front-end threads do in between: once
+     running_ is false the back-end reaches its exit *)
+  Lemma fair_reaches_done (f : nat -> label) (s : ast R) :
+    running (sh s) = false -> fair_to_backend f ->
+    forall k n0, (weight (exec R rlen P s (sched_prefix f n0)) <= k)%nat ->
+      exists n, (n0 <= n)%nat /\ pc (be (exec R rlen P s (sched_prefix f n))) = PDone.
+  Proof.
+    intros Hr Hf. induction k as [|k IH]; intros n0 Hw.
+    - exists n0. split; [lia|]. apply rank_zero_done. unfold weight in Hw. lia.
+    - destruct (Hf n0) as [m [Hm Em]].
+      destruct (exec_mono f s Hr m) as [Rm Mm]. specialize (Mm n0 Hm).
+      assert (Hd : pc (be (exec R rlen P s (sched_prefix f m))) = PDone \/ pc (be (exec R rlen P s (sched_prefix f m))) <> PDone)
+        by (destruct (pc (be (exec R rlen P s (sched_prefix f m)))); try (left; reflexivity); right; discriminate).
+      destruct Hd as [Hd|Hd]; [exists m; auto|].
+      destruct (weight_step _ (f m) Rm) as [_ [_ W3]]. specialize (W3 Em Hd).
+      destruct (IH (S m)) as [n [Hn Hp]]; [rewrite prefix_succ, exec_snoc; lia|].
+      exists n. split; [lia|exact Hp].
+  Qed.
+
+  (* liveness of stop(): from every reachable state in which stop() has stored running_ = false, under every
+     schedule fair to the back-end (labels that are not enabled are skipped), the back-end reaches its exit;
+     there the join is enabled (unless it has happened), and the state after the join satisfies the stop
+     guarantee *)
+  Theorem stop_liveness progs0 (s : ast R) (f : nat -> label) :
+    p_drain P = true ->
+    Forall (Forall (fun r => rlen r < p_cap P)) progs0 -> reachP (init progs0) s ->
+    running (sh s) = false -> fair_to_backend f ->
+    exists n, let s' := exec R rlen P s (sched_prefix f n) in
+      reachP (init progs0) s' /\ pc (be s') = PDone /\
+      (joined (gh s') = true \/
+       exists s'', stepP s' LJoin = Some s'' /\ joined (gh s'') = true /\ reachP (init progs0) s'' /\
+                   stop_flushed_full R P s'').
+  Proof.
+    intros Hd Hs Hr Hrun Hf.
+    destruct (fair_reaches_done f s Hrun Hf _ 0%nat (le_n _)) as [n [_ Hp]].
+    exists n. cbv zeta. set (s' := exec R rlen P s (sched_prefix f n)) in *.
+    assert (Hr' : reachP (init progs0) s') by (apply exec_reach; exact Hr).
+    split; [exact Hr'|]. split; [exact Hp|].
+    destruct (joined (gh s')) eqn:Ej; [left; reflexivity|right].
+    destruct (exec_mono f s Hrun n) as [Rn _]. fold s' in Rn.
+    destruct (inv_all_reach R rlen P HP Hagree progs0 s' Hs Hr') as [_ [_ [[_ [H2 _]] _]]].
+    destruct (H2 Rn) as [m [Em _]].
+    destruct (join_returns R rlen P s' Hp ltac:(congruence) Ej) as [s'' [E1 [E2 _]]].
+    exists s''. assert (Hr'' : reachP (init progs0) s'') by (eapply reach_step; eauto).
+    repeat split; auto. apply (stop_flushes R rlen P HP Hagree progs0 s'' Hd Hs Hr'').
+  Qed.
+End DtorLive.
+
 (* ====================================================================== AsyncLogging on top of LogFile *)
 Section ComposeProofs.
   Variables (R A : Type) (bytes : R -> list A).
@@ -1499,6 +1752,30 @@ Section EndToEndProofs.
     induction bs as [|b bs IH]; intros H; constructor; cbn [flat_map] in H; apply app_eq_nil in H; destruct H as [Hb Hr].
     - destruct (render_cases R P HP b) as [[Hle _]|[_ [_ [Hne _]]]]; [exact Hle|congruence].
     - apply IH. exact Hr.
+  Qed.
+
+  Lemma evs_last_flush es ops chs : evs (es ++ [OFlush]) ops chs -> exists ops', ops = ops' ++ [SFlush].
+  Proof.
+    intros H. destruct (evs_app_inv _ _ _ _ H) as [o1 [o2 [c1 [c2 [E [_ [_ H2]]]]]]]. subst.
+    inversion H2 as [|e o ch es' os chs' He Hes]; subst. inversion He; subst. inversion Hes; subst.
+    exists o1. reflexivity.
+  Qed.
+
+  (* ... and nothing is left in the stdio buffer: the last LogFile operation was a flush *)
+  Theorem stop_nothing_buffered progs0 (s : ast R) c now ops chs :
+    p_drain P = true ->
+    Forall (Forall (fun r => rlen r < p_cap P)) progs0 ->
+    reach R rlen P (init progs0) s -> joined (gh s) = true ->
+    evs (out (gh s)) ops chs ->
+    dirty (lf_run c (lf_new now) ops) = 0 /\
+    lf_run c (lf_new now) (ops ++ [SClose]) = do_close (lf_run c (lf_new now) ops).
+  Proof.
+    intros Hdrain Hs Hr Hj He.
+    destruct (stop_flushes R rlen P HP Hagree progs0 s Hdrain Hs Hr Hj) as [m [rest [_ [_ [_ [_ [Eo _]]]]]]].
+    rewrite Eo in He. unfold final_out in He. rewrite !app_assoc in He.
+    destruct (evs_last_flush _ _ _ He) as [ops' ->]. split.
+    - rewrite lf_run_snoc. reflexivity.
+    - rewrite (lf_run_snoc A c (lf_new now) (ops' ++ [SFlush]) SClose). reflexivity.
   Qed.
 
   (* ONE theorem from append to the files: stop() has returned (drain after the loop) and the events the
